@@ -108,6 +108,24 @@ func concRound(c *ConcCase, o *vkit.Outcome, round int) {
 					return
 				}
 				acked[w] = append(acked[w], off)
+				// every writer also keeps a position of its own, under its own id
+				if ss, ok := st.(eventbus.SubscriptionStore); ok {
+					serr := ss.SaveOffset(ctx, fmt.Sprintf("writer-%d", w), off)
+					sbegan := time.Now()
+					for tries := 0; serr != nil && isBusy(serr) && time.Since(sbegan) < 90*time.Second; tries++ {
+						busy.Add(1)
+						if tries < 20 {
+							runtime.Gosched()
+						} else {
+							time.Sleep(time.Duration(50*min(tries, 60)) * time.Microsecond)
+						}
+						serr = ss.SaveOffset(ctx, fmt.Sprintf("writer-%d", w), off)
+					}
+					if serr != nil {
+						failed.CompareAndSwap(nil, fmt.Sprintf("writer %d: SaveOffset(%q) failed: %v", w, off, serr))
+						return
+					}
+				}
 			}
 		}(w)
 	}
@@ -177,6 +195,22 @@ func concRound(c *ConcCase, o *vkit.Outcome, round int) {
 			}
 			seenOff[off] = k
 		}
+	}
+	// every writer's own saved position is the last one it saved: saves under
+	// different ids, made concurrently, do not disturb each other
+	if ss, ok := st.(eventbus.SubscriptionStore); ok {
+		for w := range acked {
+			if len(acked[w]) == 0 {
+				continue
+			}
+			id := fmt.Sprintf("writer-%d", w)
+			got, lerr := ss.LoadOffset(ctx, id)
+			if want := acked[w][len(acked[w])-1]; lerr != nil || got != want {
+				o.Failf("", "%s: each writer saved the offset of every acknowledged append under its own subscription id while the others did the same; after all of them returned LoadOffset(%q) = (%q, %v), but the last SaveOffset(%q, ...) that returned nil saved %q", desc, id, got, lerr, id, want)
+				return
+			}
+		}
+		o.Class("concurrent_savers_of_distinct_subscription_ids")
 	}
 	// the full log after quiescence, read in one chain
 	var all []*eventbus.StoredEvent
